@@ -360,14 +360,21 @@ def expr_of(text: str) -> ast.AST:
 def compare(table: tables.Table, sem: T.Callable[[Atom], T.Optional[T.Tuple[str, bool]]],
             ref: T.Callable[[T.Dict[str, T.Optional[bool]]], T.Any], got: T.Callable[[Row, T.Dict[str, T.Optional[bool]]], T.Any],
             extra: T.Iterable[Atom] = (), ignore: T.Callable[[Atom], bool] = lambda a: False,
+            foreign: T.Optional[T.Callable[[Atom, T.List[Atom]], T.Optional[str]]] = None,
             consistent: T.Callable[[T.Dict[str, T.Optional[bool]]], bool] = lambda v: True) -> T.Tuple[int, T.List[T.Tuple[Row, T.Any, T.Any, T.Dict[str, T.Optional[bool]]]], T.List[T.Dict[str, T.Optional[bool]]]]:
     """Enumerate the worlds of the table's atoms; `sem(atom)` -> (semantic name, flip) or None (unknown atom ->
-    Undecided); `ref(view)` -> expected, `got(row, view)` -> actual.  Returns (worlds compared, mismatches, holes = consistent worlds in which no row fires, i.e. an assumed assertion fails)."""
+    `foreign(atom, others)` may admit it as a free input, else Undecided); `ref(view)` -> expected, `got(row, view)` -> actual.  Returns (worlds compared, mismatches, holes = consistent worlds in which no row fires, i.e. an assumed assertion fails)."""
     names: T.Dict[Atom, T.Tuple[str, bool]] = {}
     for a in list(table.atoms()) + list(extra):
         if ignore(a):
             continue
         s = sem(a)
+        if s is None and foreign is not None:
+            # an atom the reference does not know: admissible as an independent input (explored both ways) only if the caller can
+            # argue that it is a plain read of entry state not correlated with the reference atoms
+            fn_ = foreign(a, [b for b in list(table.atoms()) + list(extra) if b != a])
+            if fn_ is not None:
+                s = (fn_, False)
         if s is None:
             raise Undecided(f'{table.name}: condition outside the reference vocabulary: `{a!r}`')
         names[a] = s
